@@ -399,6 +399,10 @@ fn sm_apply(a: &mut BinArchive, ev: &Value) -> (Value, i64) {
             d.sort();
             (res_val(Value::Array(d.iter().map(|x| json!(from_usize(*x))).collect())), 0)
         }
+        "equal_regions" => {
+            let b: &BinArchive = a;
+            (unit_of(b.assert_equal_regions(b, addr, t, n)), 0)
+        }
         "s_read_label" => {
             let mut rd = BinArchiveReader::new(a, addr);
             let r = opt_of(rd.read_label(n).map(|o| o.map(|s| sj_json(&s))));
